@@ -25,6 +25,11 @@ def oracle(tr):
         if op[0] == "fdsend":
             sent.setdefault(op[1], []).extend(op[3])
         per, closed = tr.steps[i]
+        # what the bus holds on to for its clients is bounded by what one message may carry (16 by default), per connection that passes descriptors
+        senders = len(set(o[1] for o in tr.ops[:i + 1] if o[0] == "fdsend"))
+        if i < len(getattr(tr, "fdcounts", [])) and tr.fdcounts[i] > 16 * max(1, senders):
+            bad.append((None, "step %d: the bus holds %d descriptors that no message has announced, for %d connection(s) that ever passed any: more than a "
+                              "message may carry" % (i, tr.fdcounts[i], senders)))
         if op[0] == "fdsleep" and i < len(getattr(tr, "fdcounts", [])) and tr.fdcounts[i] != 0:
             bad.append((None, "step %d: the pending-descriptor timeout has passed and the bus still holds %d descriptor(s) that no message announced" % (i, tr.fdcounts[i])))
         if op[0] != "fdsend":
@@ -96,6 +101,26 @@ def timer_scripts():
     ]
 
 
+def surplus_scripts():
+    """descriptors that no message has announced pile up only as far as one message may carry (max_message_unix_fds, 16): the connection that
+    goes on attaching more than it announces is dropped, and its descriptors are closed - while it is still connected, not only when it leaves"""
+    from ..bus import method_call, signal_msg, BUS, BUS_PATH
+    hello = lambda: method_call(1, BUS, BUS_PATH, BUS, "Hello").marshal()
+    def call(serial, k):
+        m = method_call(serial, BUS, BUS_PATH, BUS, "GetId")
+        if k: m.fields.append((9, ('b', 'u'), k))
+        return m.marshal()
+    head = [("connect", 0, 0, False), ("send", 0, hello()), ("connect", 1, 0, True), ("send", 1, hello()), ("connect", 2, 0, True), ("send", 2, hello())]
+    out = []
+    for per, ann in ((6, 0), (8, 0), (5, 1), (16, 15)):
+        ops, tok = list(head), 1
+        for j in range(8):
+            ops.append(("fdsend", 2, call(2 + j, ann), list(range(tok, tok + per)), 0)); tok += per
+        ops.append(("fdsend", 1, call(2, 1), [tok], 0))
+        out.append(ops)
+    return out
+
+
 def bigheader_scripts():
     """a message whose header alone is larger than the socket buffer, carrying descriptors: the bus writes it to the recipient in
     several pieces; the descriptors belong to the first piece only"""
@@ -160,6 +185,7 @@ def run(ctx):
         ctx.coverage["histories"][label]["deliveries_carrying_descriptors"] = withtok
     buscheck.run_histories(ctx, 0, 0, oracle, limits={"pending_fd_timeout": 500}, seed_salt=170, label="pending-descriptor-timeout", scripts=timer_scripts())
     buscheck.run_histories(ctx, 0, 0, oracle, seed_salt=171, label="big-header-scenarios", scripts=bigheader_scripts())
+    buscheck.run_histories(ctx, 0, 0, oracle, seed_salt=172, label="surplus-descriptor-scenarios", scripts=surplus_scripts())
     from concurrent.futures import ProcessPoolExecutor
     n = 6 if ctx.quick() else 40
     with ProcessPoolExecutor(6) as ex:
